@@ -142,3 +142,15 @@ def aggregate(ck, results, floor_name=None):
             else:
                 ck.violation(rep.rule, rep.key, rep.message, rep.detail)
     return nrep
+
+
+def maximal_roots(eng, pred=None):
+    """Header functions whose paths are not already covered by a caller's walk: functions that
+    are never expanded (opaque summaries) and functions without a caller in the header.  Every
+    path of a small helper is examined inside each function it is expanded into."""
+    orc = eng.oracle
+    cm = callers_map(eng)
+    for f in gch_roots(eng, pred):
+        callers = [c for c in cm.get(f.name, ()) if orc.is_gch(c)]
+        if not callers or eng.summary(f.name) is sym.OPAQUE:
+            yield f
